@@ -70,8 +70,8 @@ theorem mutation_roots_not_concurrent :
     objectConcurrency.lookup "_Query" = some "true" := by decide
 
 /-! non-vacuity -/
-example : [((⟨"a", "x", [], none, ""⟩ : FInfo), Shape.leaf false), (⟨"b", "y", [], none, ""⟩, Shape.leaf true)].Perm
-    [((⟨"b", "y", [], none, ""⟩ : FInfo), Shape.leaf true), (⟨"a", "x", [], none, ""⟩, Shape.leaf false)] :=
+example : [(({ alias := "a", name := "x" } : FInfo), Shape.leaf false), ({ alias := "b", name := "y" }, Shape.leaf true)].Perm
+    [(({ alias := "b", name := "y" } : FInfo), Shape.leaf true), ({ alias := "a", name := "x" }, Shape.leaf false)] :=
   List.Perm.swap _ _ _
 
 end GqlgenVerif.C06
